@@ -63,6 +63,10 @@ class _Task(ItemTask):
         self.log.append((self.name, item, 'e'))
 
 
+class _Spin(Exception):
+    pass
+
+
 def _world(chooser, nitems, ntasks, conc, latency, ev_kind, ev_step, ev_arg, ev2_step, fail_task, fail_item, fail_call, st):
     """ev_kind: 0 none, 1 stop at ev_step, 2 concurrency := ev_arg at ev_step (and, if that pauses, := 1 at ev2_step; ev2_step < 0: stop then),
     3 pause (concurrency := 0) at ev_step and nothing afterwards."""
@@ -77,11 +81,26 @@ def _world(chooser, nitems, ntasks, conc, latency, ev_kind, ev_step, ev_arg, ev2
         pipe.concurrency = conc
         st['pipe'] = pipe
         st['src'] = src
+        # watchdog: process() passing through _process_one_worker over and over without the scheduler getting a turn is a busy loop
+        spins = [0, -1]
+        real_one = pipe._process_one_worker
+
+        def counted():
+            if spins[1] == st.get('step'):
+                spins[0] += 1
+                if spins[0] > 200:
+                    raise _Spin()
+            else:
+                spins[0], spins[1] = 0, st.get('step')
+            return real_one()
+        pipe._process_one_worker = counted
         try:
             await pipe.process()
             st['result'] = 'returned'
         except Boom as e:
             st['result'] = 'raised ' + str(e)
+        except _Spin:
+            st['result'] = 'hang: busy loop (the event loop never gets a turn)'
 
     inner = chooser
     # external events, delivered at a scheduler step (or as soon as the system is quiescent, e.g. paused)
@@ -233,7 +252,7 @@ def _bounded_schedules(p1, a1, p2, a2, nitems, ntasks, conc, latency, ev_kind, e
     a2 = pick([1, 2, 3], a2 - 1)
     nitems = pick([0, 1, 2, 3, 4], nitems)
     ntasks = pick([1, 2], ntasks - 1)
-    conc = pick([1, 2, 3], conc - 1)
+    conc = pick([0, 1, 2, 3], conc)
     latency = pick([0, 1, 2], latency)
     ev_kind = pick([0, 1, 2, 3], ev_kind)
     ev_step = pick(list(range(80)), ev_step)
@@ -430,11 +449,11 @@ HARNESSES = [
           'work, a task/source failure surfaces as an exception'),
     H('bounded_schedules', '_bounded_schedules', 'p1: int, a1: int, p2: int, a2: int, ' + _SCHED_SIG,
       pre={'quick': ['0 <= p1 <= 50 and 1 <= a1 <= 2 and p1 < p2 <= 81 and 1 <= a2 <= 2',
-                     '0 <= nitems <= 3 and 1 <= ntasks <= 2 and 1 <= conc <= 3 and 0 <= latency <= 1',
+                     '0 <= nitems <= 3 and 1 <= ntasks <= 2 and 0 <= conc <= 3 and 0 <= latency <= 1',
                      '0 <= ev_kind <= 3 and 0 <= ev_step <= 40 and 0 <= ev_arg <= 3 and -1 <= ev2_step <= 10',
                      '-1 <= fail_task <= 1 and -1 <= fail_item <= 3 and -1 <= fail_call <= 4'],
            'thorough': ['0 <= p1 <= 80 and 1 <= a1 <= 3 and p1 < p2 <= 81 and 1 <= a2 <= 3',
-                        '0 <= nitems <= 4 and 1 <= ntasks <= 2 and 1 <= conc <= 3 and 0 <= latency <= 2',
+                        '0 <= nitems <= 4 and 1 <= ntasks <= 2 and 0 <= conc <= 3 and 0 <= latency <= 2',
                         '0 <= ev_kind <= 3 and 0 <= ev_step <= 79 and 0 <= ev_arg <= 3 and -1 <= ev2_step <= 10',
                         '-1 <= fail_task <= 1 and -1 <= fail_item <= 4 and -1 <= fail_call <= 5']},
       parts={'quick': [
@@ -443,14 +462,16 @@ HARNESSES = [
           {'tag': 'stop_c2', 'fix': _fx(nitems=3, ntasks=1, conc=2, latency=1, ev_kind=1, ev_arg=0, ev2_step=0, p2=81, a2=1, **_NOFAIL)},
           {'tag': 'conc_from1', 'fix': _fx(nitems=3, ntasks=1, conc=1, latency=1, ev_kind=2, p2=81, a2=1, a1=1, **_NOFAIL), 'pre': ['ev_step <= 15 and p1 <= 15 and (ev2_step == -1 or ev2_step == 0 or ev2_step == 3)']},
           {'tag': 'conc_from2', 'fix': _fx(nitems=3, ntasks=1, conc=2, latency=1, ev_kind=2, p2=81, a2=1, a1=1, **_NOFAIL), 'pre': ['ev_step <= 15 and p1 <= 15 and (ev2_step == -1 or ev2_step == 0 or ev2_step == 3)']},
-          {'tag': 'taskfail', 'fix': _fx(nitems=3, ntasks=2, latency=1, **_NOEV, fail_call=-1, p2=81, a2=1), 'pre': ['fail_task >= 0 and fail_item >= 1 and conc <= 2']},
-          {'tag': 'srcfail', 'fix': _fx(nitems=3, ntasks=1, latency=1, **_NOEV, fail_task=-1, fail_item=-1, p2=81, a2=1), 'pre': ['fail_call >= 1 and conc <= 2']},
+          {'tag': 'taskfail', 'fix': _fx(nitems=3, ntasks=2, latency=1, **_NOEV, fail_call=-1, p2=81, a2=1), 'pre': ['fail_task >= 0 and fail_item >= 1 and 1 <= conc <= 2']},
+          {'tag': 'srcfail', 'fix': _fx(nitems=3, ntasks=1, latency=1, **_NOEV, fail_task=-1, fail_item=-1, p2=81, a2=1), 'pre': ['fail_call >= 1 and 1 <= conc <= 2']},
           {'tag': 'conc_then_fail', 'fix': _fx(nitems=3, ntasks=1, conc=1, latency=1, ev_kind=2, ev2_step=0, fail_task=0, fail_call=-1, p2=81, a2=1, a1=1),
            'pre': ['ev_arg >= 2 and ev_step <= 20 and p1 <= 25 and fail_item >= 1']},
           {'tag': 'pause_then_fail', 'fix': _fx(nitems=3, ntasks=1, conc=2, latency=1, ev_kind=3, ev_arg=0, fail_task=0, fail_call=-1, p2=81, a2=1, a1=1, p1=0),
            'pre': ['ev_step <= 25 and fail_item >= 1 and 0 <= ev2_step <= 6']},
           {'tag': 'stop_then_fail', 'fix': _fx(nitems=3, ntasks=1, conc=2, latency=1, ev_kind=1, ev_arg=0, ev2_step=0, fail_task=0, fail_call=-1, p2=81, a2=1, a1=1),
            'pre': ['ev_step <= 25 and p1 <= 25 and fail_item >= 1']},
+          {'tag': 'start_paused', 'fix': _fx(nitems=2, ntasks=1, conc=0, latency=1, ev_kind=2, p2=81, a2=1, a1=1, p1=0, **_NOFAIL),
+           'pre': ['ev_step <= 6 and 1 <= ev_arg <= 2 and ev2_step == 0']},
           {'tag': 'stop_then_late_fail', 'fix': _fx(nitems=3, ntasks=1, conc=2, latency=1, ev_kind=1, ev_arg=0, fail_task=0, fail_call=-1, p2=81, a2=1, a1=1, p1=0),
            'pre': ['ev_step <= 25 and fail_item >= 1 and 1 <= ev2_step <= 6']},
       ], 'thorough': [
